@@ -23,6 +23,12 @@ Proof.
   - destruct (hl_value h) as [b|items]; [|discriminate]. now exists b.
 Qed.
 
+Lemma fold_add_joined : forall r a, fold_left add_joined r (Some a) = Some (fold_left join2 r a).
+Proof.
+  induction r as [|w r IH]; intros a; [reflexivity|]. cbn [fold_left].
+  change (add_joined (Some a) w) with (Some (join2 a w)). apply IH.
+Qed.
+
 Lemma expect_request_unfold m me t v :
   expect_request m me t v =
   let reported := spec_reported m in
@@ -47,16 +53,13 @@ Proof.
 Qed.
 
 Lemma observe_request_spec m me t v : wf m = true -> m_start m = SReq me t v ->
-  known_cookies m = false -> known_lang m = false ->
   observe_request (req_of m me t v) = expect_request m me t v.
 Proof.
-  intros W Es Kc Kl.
+  intros W Es.
   assert (R : is_request m = true) by (unfold is_request; now rewrite Es).
   destruct (wf_parts m W) as (_ & _ & Hl & Href). specialize (Href R). rewrite R in Hl.
   pose proof (model_headers_ok _ _ O Hl) as Hok. fold (model_headers m) in Hok.
   pose proof (spec_reported_ok m W) as Rok.
-  unfold known_cookies in Kc. rewrite R in Kc. cbn [andb] in Kc. apply N.ltb_ge in Kc.
-  unfold known_lang in Kl. rewrite R, andb_true_l in Kl. unfold lang_items in Kl.
   rewrite expect_request_unfold. cbv zeta.
   unfold observe_request, req_of. cbv zeta.
   cbn [r_method r_uri r_version r_headers r_cookies r_referer r_user_agent r_accept_language].
@@ -68,17 +71,22 @@ Proof.
   rewrite (last_value_unique (bs "referer")); [| reflexivity | exact Hok | unfold model_headers; rewrite count_model_headers; lia].
   rewrite first_named_model.
   (* cookies *)
-  rewrite (last_value_unique (bs "cookie")); [| reflexivity | exact Hok | unfold model_headers; rewrite count_model_headers; lia].
-  rewrite first_named_model.
-  rewrite (filter_at_most_one (named (bs "cookie"))) by lia.
-  assert (Ck : match option_map (fun h => render_value (hl_value h)) (find (named (bs "cookie")) (m_headers m)) with
-               | Some c => parse_cookies c | None => [] end
+  assert (Ck : match joined_value (bs "cookie") (model_headers m) with Some c => parse_cookies c | None => [] end
              = number_cookies (flat_map (fun h => cookie_pairs (render_value (hl_value h)))
-                 match find (named (bs "cookie")) (m_headers m) with Some x => [x] | None => [] end) O).
-  { destruct (find (named (bs "cookie")) (m_headers m)) as [h|] eqn:F; [|reflexivity].
-    apply find_some in F as [Hin Hn]. rewrite Forall_forall in Hl.
-    destruct (line_ok_special h (Hl h Hin)) as [_ Hc]. destruct (Hc Hn) as (b & Eb & Pb).
-    cbn [option_map flat_map]. rewrite app_nil_r, Eb. cbn [render_value]. now apply cookie_split. }
+                 (filter (named (bs "cookie")) (m_headers m))) O).
+  { unfold joined_value. rewrite joined_fold_vals by (reflexivity || exact Hok).
+    unfold model_headers. rewrite vals_model_headers.
+    set (cs := filter (named (bs "cookie")) (m_headers m)).
+    assert (Pc : Forall (fun v => plain_ws v = true) (map (fun h => render_value (hl_value h)) cs)).
+    { apply Forall_map. apply Forall_forall. intros h Hin. unfold cs in Hin. apply filter_In in Hin as [Hin Hn].
+      rewrite Forall_forall in Hl. destruct (line_ok_special h (Hl h Hin)) as [_ Hc]. destruct (Hc Hn) as (b & Eb & Pb).
+      now rewrite Eb. }
+    pose proof (cookie_join_split _ Pc) as J.
+    match goal with |- match ?X with _ => _ end = _ =>
+      assert (E : X = joinl (map (fun h => render_value (hl_value h)) cs)) end.
+    { destruct (map (fun h => render_value (hl_value h)) cs) as [|v0 r]; [reflexivity|]. cbn [fold_left joinl].
+      change (add_joined None v0) with (Some v0). apply fold_add_joined. }
+    rewrite E, J. now rewrite flat_map_concat_map, map_map, <- flat_map_concat_map. }
   rewrite Ck. clear Ck.
   (* language *)
   rewrite (first_value_named (bs "accept-language")) by (reflexivity || exact Hok).
@@ -99,13 +107,17 @@ Qed.
 Theorem request_faithful m me t v body : wf m = true -> m_start m = SReq me t v -> known m = false ->
   analyse_request (render m ++ body) = Ok (expect_request m me t v).
 Proof.
-  intros W Es K. unfold known in K. apply orb_false_iff in K as [Kc Kl].
+  intros W Es _.
   rewrite (analyse_request_render m me t v) by assumption.
   destruct (wf_parts m W) as (Hs & _). rewrite Es in Hs. cbn [start_ok] in Hs.
   repeat (apply andb_true_iff in Hs as [Hs ?]). apply mem_bytes_In in Hs.
   rewrite (gate_method me Hs).
   now rewrite observe_request_spec.
 Qed.
+
+Theorem request_faithful_all m me t v body : wf m = true -> m_start m = SReq me t v ->
+  analyse_request (render m ++ body) = Ok (expect_request m me t v).
+Proof. intros W Es. now apply request_faithful. Qed.
 
 (* ---------- witnesses: each known class contains a well-formed message the code misreports ---------- *)
 Definition hraw (n v : bytes) : hline := {| hl_name := n; hl_ows1 := [sp]; hl_value := VRaw v; hl_ows2 := [] |}.
@@ -124,17 +136,20 @@ Definition refuted (m : msg) : Prop :=
 Ltac refute := split; [vm_compute; reflexivity |
   cbn [m_start get_msg]; intros H; apply (f_equal (show_result show_req)) in H; vm_compute in H; discriminate H].
 
-(* two Cookie headers: the cookies of the first one are lost *)
+(* two Cookie headers (repaired: their cookies are reported in wire order) *)
 Definition w_cookies : msg := get_msg (bs "GET") [hraw (bs "Host") (bs "a"); hraw (bs "Cookie") (bs "a=b"); hraw (bs "Cookie") (bs "c=d")].
-Lemma Known_cookies_refuted : exists m, known_cookies m = true /\ refuted m.
-Proof. exists w_cookies. split; [reflexivity | refute]. Qed.
+Lemma cookies_former_witness_agrees :
+  wf w_cookies = true /\ known w_cookies = false /\
+  analyse_request (render w_cookies) = Ok (expect_request w_cookies (bs "GET") (bs "/") true).
+Proof. vm_compute. repeat split; reflexivity. Qed.
 
-(* "fr;Q=0.1,en;q=0.9": the literal "Q=" (ABNF literals are case-insensitive) is not removed, the
-   weight does not parse and counts as 1.0: French is reported *)
+(* "fr;Q=0.1,en;q=0.9": the literal "Q=" (ABNF literals are case-insensitive); repaired: read as 0.1 *)
 Definition w_upper_q : msg :=
   get_msg (bs "GET") [hlang [item [] (bs "fr") (Some ([], [], bs "0.1")) [] true; item [] (bs "en") (Some ([], [], bs "0.9")) [] false]].
-Lemma Known_upper_q_refuted : exists m, known_lang m = true /\ refuted m.
-Proof. exists w_upper_q. split; [reflexivity | refute]. Qed.
+Lemma upper_q_former_witness_agrees :
+  wf w_upper_q = true /\ known w_upper_q = false /\
+  analyse_request (render w_upper_q) = Ok (expect_request w_upper_q (bs "GET") (bs "/") true).
+Proof. vm_compute. repeat split; reflexivity. Qed.
 
 (* the former classes are inside the theorem now: witnesses of the repaired defects *)
 Definition w_method : msg := get_msg (bs "REPORT") [hraw (bs "Host") (bs "a")].
